@@ -251,8 +251,13 @@ pub fn rseq(
         }
     }
     for g in a.gen_all() {
-        if let Ok(b) = std::fs::read(root.join(&g)) {
-            if root.join(&g).is_file() {
+        // regular files only: a generated path may be a symlink to a device (fault F6)
+        let p = root.join(&g);
+        let regular = std::fs::symlink_metadata(&p)
+            .map(|m| m.file_type().is_file())
+            .unwrap_or(false);
+        if regular {
+            if let Ok(b) = std::fs::read(&p) {
                 r.files.insert(g, b);
             }
         }
